@@ -17,7 +17,7 @@ ALPHABET = {
     "enter": [S("G1", "X# Y#"), S("G1", "X# Y# E#"), S("G1", "X# Y# Z#"), S("G0", "Y#")],
     "leave": [S("G1", "X# Y#"), S("G0", "X#"), S("G1", "Y# E#"), S("G1", "X# Y# Z#")],
     "inside": [S("G1", "X# Y#"), S("G1", "Z#"), S("G1", "X# Y# Z# E#"), S("G1", "E#"), S("G90"), S("G91"),
-               S("G20"), S("G21"), S("M105"), S("G4", "P#"), S("G10", ""), S("G1", "F#")],
+               S("G20"), S("G21"), S("M105"), S("G4", "P#"), S("G10", ""), S("G1", "F#"), pl.Shape("@replaceRegion", (), tag="replaceRegion")],
     "frame": [S("G20"), S("G21"), S("G90"), S("G91"), S("G1", "Z#"), S("G1", "X# Y#")],
     "arcs": [S("G2", "X# Y# I# J#"), S("G3", "X# Y# I# J# Z#"), S("G1", "X# Y#"), S("G1", "Y#")],
     "any": [S("G1", "X# Y#"), S("G1", "X# Y# Z#"), S("G1", "Z#"), S("G0", "X#"), S("G1", "Y# E#"), S("G91"),
@@ -39,6 +39,13 @@ def scen(w, template="enter,inside,leave", kinds="r"):
         shapes = ALPHABET[an]
         shape = shapes[w.choose(len(shapes), "shape")]
         w.cover("shape-" + shape.tag)
+        if shape.code == "@replaceRegion":
+            # the user redraws the region in mid-print (API update, shrinking allowed): arbitrary new geometry, same id
+            old = pipe.regions[0]
+            new = pl.RegionSpec(old.kind, tuple(w.real("rep%d_%d" % (k, i)) for i in range(len(old.params))), old.id)
+            pipe.regions[0] = new
+            pipe.state.replaceRegion(new.build(w.env), False)
+            continue
         text, _ = pl.render(w, shape, pipe.k)
         rec = pipe.begin(text)
         if shape.code in ("G2", "G3") and not pipe.V.abs_xyz:
